@@ -3,6 +3,7 @@
 
 mod ctx;
 mod rng;
+mod sd;
 mod refimpl;
 mod gen;
 mod p01;
